@@ -1015,3 +1015,26 @@ def table_entries_have_same_keys(modname):
                         note=("every literal entry stored in `%s` has the keys %r" % (table, list(keysets[0]))) if ok else
                         ("entries stored in `%s` are built with different keys: %r at most sites, but %r at line %d" % (table, list(keysets[0]), list(odd[0][1]), odd[0][0]))))
     return out
+
+
+def resolved_defaults_are_used(qualname):
+    """`x = self.x if self.x is not None else <fallback>` resolves an optional setting once; every later decision in the function must read
+    the resolved local `x` -- reading `self.x` again ignores the fallback (the setting then counts as off whenever it was left at None)"""
+    fi = source.lookup(qualname)
+    out = []
+    resolved = {}
+    for s in ast.walk(fi.node):
+        if isinstance(s, ast.Assign) and len(s.targets) == 1 and isinstance(s.targets[0], ast.Name) and isinstance(s.value, ast.IfExp):
+            name = s.targets[0].id
+            v = s.value
+            pat = "self.%s" % name
+            if ast.unparse(v.body) == pat and ast.unparse(v.test) in ("%s is not None" % pat,) :
+                resolved[name] = s
+    for name, st in resolved.items():
+        uses = [n for n in ast.walk(fi.node) if isinstance(n, ast.Attribute) and isinstance(n.ctx, ast.Load) and n.attr == name and isinstance(n.value, ast.Name) and n.value.id == "self"
+                and n.lineno > st.end_lineno]
+        ok = not uses
+        out.append(_ob(qualname, "resolved-setting-is-used:%s" % name, ok, uses[0].lineno if uses else st.lineno,
+                       ("`%s` is resolved at line %d and only the resolved value is read afterwards" % (name, st.lineno)) if ok else
+                       ("`%s` is resolved at line %d (falling back when self.%s is None) but `self.%s` is read again at line(s) %s: with the setting left at None the fallback is ignored there" % (name, st.lineno, name, name, sorted({u.lineno for u in uses})))))
+    return out
